@@ -615,6 +615,20 @@ namespace
                                                                    (unsigned long long)op.n, c.tname(), c.align(), r.is_aligned_seen & 1, (r.is_aligned_seen >> 1) & 1, (r.is_aligned_seen >> 2) & 1,
                                                                    (unsigned long long)rel, truth & 1, (truth >> 1) & 1, (truth >> 2) & 1));
                     }
+                    if (r.offset_seen >= 0)
+                    {
+                        const uint64_t esz = es, block_bytes = 64;
+                        long want = 64;
+                        for (long k = 0; k <= 64; ++k)
+                            if (((uintptr_t)r.p + (uint64_t)k * esz) % block_bytes == 0)
+                            {
+                                want = k;
+                                break;
+                            }
+                        if (want != r.offset_seen)
+                            out.violate("C18/alignment-offset", sim::fmt("get_alignment_offset(p, 64, %llu) asked on the pointer allocate(%llu) of aligned_allocator<%s,%zu> had just returned answered %ld, the address +0x%llx says %ld",
+                                                                         (unsigned long long)(64 / esz), (unsigned long long)op.n, c.tname(), c.align(), r.offset_seen, (unsigned long long)rel, want));
+                    }
                     if ((uintptr_t)r.p % c.align())
                         out.violate("C18/misaligned", sim::fmt("allocate(%llu) returned +0x%llx which is not a multiple of Align=%zu", (unsigned long long)op.n, (unsigned long long)rel, c.align()));
                     else if (((uintptr_t)r.p % (2 * c.align())) != 0)
